@@ -403,6 +403,31 @@ func ruleL1(p *Prog, r *Report) {
 	n := 0
 	for _, e := range table {
 		f := p.Method(e.typ, e.method)
+		if f == nil && e.method != "Encode" {
+			// the same encoder written as a package function, or under another name: the one non-compact
+			// encoder that the type's inlined entry point hands its *Encoder to
+			f = p.PkgFunc(e.method)
+			if entry := p.Method(e.typ, "encodeAsInlined"); f == nil && entry != nil {
+				var cands []*ssa.Function
+				for _, g := range p.calleesDeep(entry) {
+					if g.Pkg != p.RootSSA || g == p.PkgFunc("encodeAsInlinedCompactMap") || !lastResultIsError(g) {
+						continue
+					}
+					takesEnc := false
+					for _, q := range g.Params {
+						if typeName(q.Type()) == "Encoder" && g.Signature.Recv() == nil || (g.Signature.Recv() != nil && q != g.Params[0] && typeName(q.Type()) == "Encoder") {
+							takesEnc = true
+						}
+					}
+					if takesEnc && (g.Signature.Recv() == nil || recvName(g) == e.typ) {
+						cands = append(cands, g)
+					}
+				}
+				if len(cands) == 1 {
+					f = cands[0]
+				}
+			}
+		}
 		cons := "encoder-width:" + e.typ + "." + e.method
 		if e.mode != "" {
 			cons += ":" + e.mode
